@@ -121,10 +121,49 @@ struct ArenaTree<'a, 'b: 'a> {
   arena: Vec<Node<'a, 'b>>,
 }
 
+/// Whether two `CDDLType`s denote the same AST node: the same variant
+/// referring to the same object. Structural equality is not enough here, since
+/// equal sub-expressions (the same identifier used twice, `.size` twice, ...)
+/// are distinct nodes with distinct parents. The two by-value variants have no
+/// identity of their own and compare by value.
+fn same_node(a: &CDDLType<'_, '_>, b: &CDDLType<'_, '_>) -> bool {
+  use core::ptr::eq;
+
+  match (a, b) {
+    (CDDLType::CDDL(x), CDDLType::CDDL(y)) => eq(*x, *y),
+    (CDDLType::Rule(x), CDDLType::Rule(y)) => eq(*x, *y),
+    (CDDLType::TypeRule(x), CDDLType::TypeRule(y)) => eq(*x, *y),
+    (CDDLType::GroupRule(x), CDDLType::GroupRule(y)) => eq(*x, *y),
+    (CDDLType::Group(x), CDDLType::Group(y)) => eq(*x, *y),
+    (CDDLType::GroupChoice(x), CDDLType::GroupChoice(y)) => eq(*x, *y),
+    (CDDLType::GenericParams(x), CDDLType::GenericParams(y)) => eq(*x, *y),
+    (CDDLType::GenericParam(x), CDDLType::GenericParam(y)) => eq(*x, *y),
+    (CDDLType::GenericArgs(x), CDDLType::GenericArgs(y)) => eq(*x, *y),
+    (CDDLType::GenericArg(x), CDDLType::GenericArg(y)) => eq(*x, *y),
+    (CDDLType::GroupEntry(x), CDDLType::GroupEntry(y)) => eq(*x, *y),
+    (CDDLType::Identifier(x), CDDLType::Identifier(y)) => eq(*x, *y),
+    (CDDLType::Type(x), CDDLType::Type(y)) => eq(*x, *y),
+    (CDDLType::TypeChoice(x), CDDLType::TypeChoice(y)) => eq(*x, *y),
+    (CDDLType::Type1(x), CDDLType::Type1(y)) => eq(*x, *y),
+    (CDDLType::Type2(x), CDDLType::Type2(y)) => eq(*x, *y),
+    (CDDLType::Operator(x), CDDLType::Operator(y)) => eq(*x, *y),
+    (CDDLType::RangeCtlOp(x), CDDLType::RangeCtlOp(y)) => eq(*x, *y),
+    (CDDLType::ControlOperator(x), CDDLType::ControlOperator(y)) => eq(*x, *y),
+    (CDDLType::Occurrence(x), CDDLType::Occurrence(y)) => eq(*x, *y),
+    (CDDLType::ValueMemberKeyEntry(x), CDDLType::ValueMemberKeyEntry(y)) => eq(*x, *y),
+    (CDDLType::TypeGroupnameEntry(x), CDDLType::TypeGroupnameEntry(y)) => eq(*x, *y),
+    (CDDLType::MemberKey(x), CDDLType::MemberKey(y)) => eq(*x, *y),
+    (CDDLType::NonMemberKey(x), CDDLType::NonMemberKey(y)) => eq(*x, *y),
+    (CDDLType::Occur(x), CDDLType::Occur(y)) => x == y,
+    (CDDLType::Value(x), CDDLType::Value(y)) => x == y,
+    _ => false,
+  }
+}
+
 impl<'a, 'b: 'a> ArenaTree<'a, 'b> {
   fn node(&mut self, val: CDDLType<'a, 'b>) -> usize {
     for node in self.arena.iter() {
-      if node.val == val {
+      if same_node(&node.val, &val) {
         return node.idx;
       }
     }
@@ -190,7 +229,7 @@ impl<'a, 'b: 'a> ParentVisitor<'a, 'b> {
 impl<'a, 'b: 'a> CDDLType<'a, 'b> {
   pub fn parent(&self, visitor: &'b ParentVisitor<'a, 'b>) -> Option<&'b CDDLType<'a, 'b>> {
     for node in visitor.arena_tree.arena.iter() {
-      if self == &node.val {
+      if same_node(self, &node.val) {
         if let Some(parent_idx) = node.parent {
           if let Some(parent) = visitor.arena_tree.arena.get(parent_idx) {
             return Some(&parent.val);
